@@ -22,7 +22,7 @@ RULE = ('fresh loads of samples with resolutions 2^8..2^18 and non-powers of two
         ' Also: the same channel requested more than once with its own bin count/scale, samples without events, NaN/inf events in float samples, tuple/ndarray argument forms.')
 ASSUMPTIONS = ['logicle edges compared with the reference transform at rtol 1e-9 (2e-5 for float32 samples)']
 MIN_CHECKS = {'quick': 6000, 'thorough': 150000}
-REQUIRED_COUNTERS = ['chk:hist_bins', 'chk_hist_centre_linear', 'chk_hist_centre_log', 'chk:list-vs-single', 'chk:refusal', 'chk:history', 'chk:form']
+REQUIRED_COUNTERS = ['chk:hist_bins', 'chk:resolution-vs-keyword', 'chk_hist_centre_linear', 'chk_hist_centre_log', 'chk:list-vs-single', 'chk:refusal', 'chk:history', 'chk:form']
 
 
 def fresh_like(s):
@@ -67,6 +67,14 @@ def run(ctx):
             return s
         s0 = fresh()
         D = s0.shape[1]
+        # the number of values the detector can report is the file's $PnR (the oracle of the call monitor reads the sample's
+        # own resolution accessor for the default bin count and the centring step: judged here against the keyword itself,
+        # round z C19-z: a resolution rounded up to a power of two leaves 1000 values in 1024 bins, none of them centred)
+        ctx.counters['chk:resolution-vs-keyword'] += 1
+        ctx.check([int(v) for v in s0.resolution()] == [int(R_) for R_ in spec['ranges']], 'resolution-differs-from-PnR', cid,
+                  got=[int(v) for v in s0.resolution()], want=[int(R_) for R_ in spec['ranges']], state=state)
+        mon.hist_true_res = [int(R_) for R_ in spec['ranges']]
+        mon.hist_true_names = list(spec['names'])
         for c in range(10):
             form = int(rng.integers(5))
             if form == 0:
